@@ -240,6 +240,18 @@ def cascade(F, R):
                 ok = all(s in (['P', 'H2', 'W', 'E', 'Q'], ['P', 'W', 'E', 'Q']) for s in seqs)
                 R.ob('C09.entry', ok, {'func': f.q, 'sequences': seqs})
                 if not ok: R.find('C09.entry', f, 'explicit-entry', 'explicit entry must run own entry, apply history to the regions not named, override the named regions, run the entries, then the pending events; found %s' % seqs)
+                # when the targets do not name every region the history policy (also the "no history" one, which resets to the
+                # initial states) must be applied to the others: oracle = number of targets vs number of declared regions
+                mm = Model(F).machine_of(F.class_type(f))
+                ta = f.targs() or []
+                tl = type_list(str(ta[0])) if ta else None
+                ini = Model(F).initial_states(mm.fe) if mm else None
+                if ok and tl is not None and ini:
+                    need = len(tl) < len(ini)
+                    has = all('H2' in s for s in seqs)
+                    ok2 = has or not need
+                    R.ob('C09.entry', ok2, {'func': f.q, 'targets': len(tl), 'regions': len(ini), 'applies_history_policy': has})
+                    if not ok2: R.find('C09.entry', f, 'explicit-entry-unnamed-regions', 'explicit entry names %d of %d regions but does not apply the history policy to the others: they keep the state they had when the submachine was last left (with no history they must restart from their initial states)' % (len(tl), len(ini)), instance=Facts.short(mm.fe, 100))
             if f.n == 'on_pseudo_entry':
                 def cl(i, n):
                     if n['k'] != 'call': return None
@@ -984,6 +996,20 @@ def copyser(F, R):
             base_ser = any(n.get('n') == 'base_object' for i, n in f.calls())
             R.ob('C16.fields', not missing and base_ser, {'func': f.q, 'fields': fields, 'archived': sorted(ref & set(fields)), 'exempt': sorted(SER_EXEMPT), 'front_end_base_archived': base_ser})
             if missing: R.find('C16.fields', f, 'missing:' + ','.join(missing), 'serialize does not archive data member(s) %s' % missing)
+            # each archived member is handed to the archive operator itself (whole object), not to a helper that takes a size / a part
+            whole = set()
+            for i, n in f.calls():
+                if n.get('op') in ('&', '<<', '>>') or n.get('n') in ('operator&', 'operator<<', 'operator>>'):
+                    for a in list(n.get('args', [])) + ([n['obj']] if n.get('obj') else []):
+                        x = f.nodes[a]
+                        while x and x['k'] in ('icast', 'cast', 'paren', 'tmp'): x = f.nodes[x['e']]
+                        if x and x['k'] == 'call' and x.get('n') == 'make_nvp' and x.get('args'):
+                            x = f.nodes[x['args'][-1]]
+                            while x and x['k'] in ('icast', 'cast', 'paren', 'tmp'): x = f.nodes[x['e']]
+                        if x and x['k'] == 'mem' and x.get('dk') == 'field': whole.add(x['n'])
+            partial = [x for x in fields if x in ref and x not in whole and x not in SER_EXEMPT and x != 'm_substate_list']
+            R.ob('C16.fields', not partial, {'func': f.q, 'archived_whole': sorted(whole)})
+            if partial: R.find('C16.fields', f, 'partial:' + ','.join(partial), 'data member(s) %s are not handed to the archive operator themselves but to a helper (a byte / element count decides what is saved): regions beyond the first are not archived' % partial)
             if not base_ser: R.find('C16.fields', f, 'no-base', 'serialize does not archive the front-end base object')
             # the front-end base is archived in place (loading must write into this object, not into a copy of it)
             for i, n in f.calls():
@@ -1715,3 +1741,36 @@ def ctrlblock(F, R):
             ok = len(il) == 5 and il[:3] == ['null', 'null', 'null'] and isinstance(il[3], dict) and il[3].get('tk') == 0 and strip_cvref(F.strs[il[3]['sizeof']]) == T and il[4] == 1
             R.ob('C20.block', ok, {'type': Facts.short(str(T), 60), 'arm': 'inline-trivial', 'initialiser': [x if not isinstance(x, dict) else 'sizeof(%s)' % Facts.short(F.strs[x['sizeof']], 40) for x in il]})
             if not ok: R.find('C20.block', ('boost/msm/backmp11/detail/basic_polymorphic.hpp', r['q']), 'inline-trivial', 'control block of trivially copyable %s must be {null, null, null, sizeof(T), true}; found %s' % (Facts.short(str(T), 60), il), where=r['loc'])
+
+@rule('visitmode')
+def visitmode(F, R):
+    """C02.visit-mode (backmp11): entry and exit behaviours are applied to the active states of ONE machine level - a nested submachine
+    runs the entries / exits of its own substates itself (its back-end on_entry / on_exit).  Every visit<Mode>(v) whose visitor runs
+    entry or exit behaviours (state_entry_visitor, or a closure calling on_entry / on_exit) uses Mode = active, non-recursive."""
+    for f in F.funcs:
+        if backend_of(f) != 'backmp11' or not f.blocks: continue
+        for i, n in f.calls():
+            if n.get('n') not in ('visit', 'visit_if') or not n.get('args') or not n.get('ta'): continue
+            mode = n['ta'][0].get('i') if isinstance(n['ta'][0], dict) else None
+            if mode is None: continue
+            a = f.nodes[n['args'][0]]
+            while a and a['k'] in ('icast', 'cast', 'tmp', 'bind'): a = f.nodes[a['e']] if a.get('e') else None
+            vt = F.strs[a['t']] if a and 't' in a else ''
+            runs = None
+            if 'state_entry_visitor<' in vt: runs = 'entry'
+            elif a is not None:
+                lam = a if a['k'] == 'lambda' else None
+                if lam is None:
+                    from rules_order import dependency_closure
+                    for d in dependency_closure(f, n['args'][0]):
+                        if f.nodes[d] and f.nodes[d]['k'] == 'lambda': lam = f.nodes[d]
+                if lam is not None:
+                    for g in F.funcs_of_lambda(lam['lck']):
+                        for j, m in g.calls():
+                            if m.get('n') in ('on_exit', 'on_entry'): runs = 'exit' if m['n'] == 'on_exit' else 'entry'
+            if runs is None: continue
+            R.seen(f); R.anchor('behaviour-visit:' + runs)
+            ok = mode == 1
+            R.ob('C02.visit-mode', ok, {'func': f.q, 'runs': runs, 'mode': mode})
+            if not ok:
+                R.find('C02.visit-mode', f, runs, 'the %s behaviours are applied with visit mode %d (required: active states, non-recursive = 1): states of a nested submachine, which runs its own %s, would be %s twice' % (runs, mode, 'entries' if runs == 'entry' else 'exits', 'entered' if runs == 'entry' else 'exited'), where=f.at(i))
